@@ -12,6 +12,7 @@ def runCase (lines : Array String) : Array String :=
     | ["busyappend"] => "busyappend refused"
     | ["concappend", _, _] => "concappend ok"
     | ["saveretry"] => "saveretry ok"
+    | ["saveback"] => "saveback ok"
     | ["twohandles"] => "twohandles ok"
     | ["appendnil"] => "appendnil refused"
     | _ => "bad-op " ++ l
